@@ -28,7 +28,9 @@ RULE = ("(a) formatter: ALL 12-bit and ALL 16-bit values, each also as v+2^n, v-
         "ascending order exactly the words containing a written byte (reference interpreter's written-byte set when "
         "uncached; the backing store's cells when cached) with their true values; (c) TOY: get_register_representations() "
         "(16/12/16 bits) and get_memory_table_entries() after every step. non-trivial = value with the sign bit set or "
-        "needing zero padding; table with >=2 rows produced by unaligned byte/half writes; distinct = hash(case)")
+        "needing zero padding; table with >=2 rows produced by unaligned byte/half writes; distinct = hash(case)"
+        ' After each RISC-V program the used simulation is loaded twice more (no data / a data segment) and the tables '
+        'must show exactly the current memory.')
 ASSUMPTIONS = ["TOY representations are blank while no program is loaded (the UI blanks them): only loaded simulations are judged"]
 M32 = 0xFFFFFFFF
 
